@@ -34,6 +34,10 @@ def field_name(f, n):
     n = strip_casts(n)
     while n is not None and n["k"] == "UnaryOperator" and n.get("op") == "&":
         n = strip_casts(n["c"][0])
+    # reads of a std::atomic field: implicit conversion operator / load()
+    if n is not None and n["k"] == "CXXMemberCallExpr" and not call_args(n) and \
+            ((f.decl(n) or {}).get("n", "").startswith("operator ") or (f.decl(n) or {}).get("n") == "load"):
+        n = strip_casts(member_call_object(n))
     if n is not None and n["k"] == "MemberExpr":
         d = f.decl(n)
         if d is not None and d["k"] == "Field" and d.get("cls") == PRIV:
@@ -180,6 +184,12 @@ def run(ctx):
         if g not in fields:
             raise AnalysisBroken("anchor vanished: queue::priv::%s" % g)
 
+    u0 = funcs[0].unit
+    atomic = {}
+    for fl in P.records[PRIV]["fields"]:
+        ts = (u0.type(fl.get("t")) or {}).get("s", "")
+        if fl["n"] in GUARDS and ("atomic<" in ts or ts.startswith(("std::atomic_", "atomic_"))):
+            atomic[fl["n"]] = ts
     flows = {}
     n_lock = n_access = 0
     for f in funcs:
@@ -215,9 +225,16 @@ def run(ctx):
             if st is TOP:
                 continue
             need = GUARDS[d["n"]]
+            if d["n"] in atomic and need not in st[0] and not atomic_write(f, n) and not in_wait_predicate(f, n):
+                # a std::atomic field may be *read* without the mutex (no data race); what the waiters rely on
+                # is that it is written, and re-tested around pthread_cond_wait, under the waited mutex
+                ctx.ob("R-LOCKSET", ent + " (atomic read outside a wait predicate)", True, f.loc(n),
+                       "`%s` is a %s; a lock-free read is race-free and is not the predicate of a wait" % (
+                           expr_str(f, n), atomic[d["n"]]))
+                continue
             ctx.ob("R-LOCKSET", ent + " under " + need, need in st[0], f.loc(n),
                    "`%s` is evaluated with must-held set %s" % (expr_str(f, n), sorted(st[0])))
-    ctx.floor("R-PAIR", "lock/unlock/wait calls", n_lock, 12)
+    ctx.floor("R-PAIR", "lock/unlock/wait calls", n_lock, 8)
     ctx.floor("R-LOCKSET", "accesses to guarded fields", n_access, 10)
 
     # ---- R-WAITLOOP + waiter table
@@ -394,6 +411,41 @@ def front_facts(f, node):
     return frozenset(x for x in (st or ()) if x[0] == "nn")
 
 
+ATOMIC_WRITERS = ("store", "exchange", "fetch_add", "fetch_sub", "fetch_and", "fetch_or", "fetch_xor",
+                  "compare_exchange_weak", "compare_exchange_strong")
+
+
+def atomic_write(f, n):
+    """is the MemberExpr n (a std::atomic field) the target of a write?"""
+    p = f.parent(n)
+    while p is not None and p["k"] in ("ImplicitCastExpr", "ParenExpr"):
+        n, p = p, f.parent(p)
+    if p is None:
+        return False
+    if p["k"] == "CXXOperatorCallExpr" and p.get("op") in ("=", "|=", "&=", "^=", "+=", "-=", "++", "--"):
+        a = call_args(p)
+        return bool(a) and strip_casts(a[0]) is strip_casts(n)
+    if p["k"] == "MemberExpr":
+        pp = f.parent(p)
+        if pp is not None and pp["k"] == "CXXMemberCallExpr" and (f.decl(pp) or {}).get("n") in ATOMIC_WRITERS:
+            return True
+    if p["k"] == "UnaryOperator" and p.get("op") == "&":
+        return True     # address escapes: treated as a write
+    return False
+
+
+def in_wait_predicate(f, n):
+    """is n inside the condition of a loop whose body waits on a condition variable?"""
+    prev = n
+    for a in f.ancestors(n):
+        if a["k"] in ("WhileStmt", "DoStmt", "ForStmt"):
+            cond = a["c"][0] if a["k"] == "WhileStmt" else a["c"][1]
+            if cond is not None and any(x is n for x in walk(cond)) and \
+                    any((pcall(f, x) or ("",))[0] == "wait" for x in walk(a)):
+                return True
+    return False
+
+
 def cond_atoms(f, cond, truth):
     """[(field, 'empty'|'value', polarity)]: atoms that must hold for the loop condition to be `truth`
     (conjunction only; a disjunction yields no atoms)."""
@@ -428,10 +480,19 @@ def mutation_effect(f, n):
         if d["n"] in ("pop", "pop_back", "pop_front", "clear", "erase"):
             return (fl, "empty", True, "item")
         return None
-    if n["k"] == "BinaryOperator" and n.get("op") == "=":
-        fl = field_name(f, n["c"][0])
+    if n["k"] == "CXXMemberCallExpr" and (f.decl(n) or {}).get("n") == "store" and call_args(n):
+        fl = field_name(f, member_call_object(n))
         if fl in GUARDS:
-            r = strip_casts(n["c"][1])
+            r = strip_casts(call_args(n)[0])
+            if r is not None and r["k"] == "CXXBoolLiteralExpr":
+                return (fl, "value", bool(r.get("v")), "flag")
+            return (fl, "value", None, "flag")
+    if (n["k"] == "BinaryOperator" and n.get("op") == "=") or \
+            (n["k"] == "CXXOperatorCallExpr" and n.get("op") == "=" and len(call_args(n)) == 2):
+        lhs, rhs = (n["c"][0], n["c"][1]) if n["k"] == "BinaryOperator" else call_args(n)
+        fl = field_name(f, lhs)
+        if fl in GUARDS:
+            r = strip_casts(rhs)
             if r is not None and r["k"] == "CXXBoolLiteralExpr":
                 return (fl, "value", bool(r.get("v")), "flag")
             return (fl, "value", None, "flag")
